@@ -93,6 +93,7 @@ func sliceAccess() *slice {
 		Call("Sum", TInt), Call("Sum", TInt, TInt), Call("Sum", TInt, TInt, TInt),
 		Call("Fast", TAny), Call("Fast", TAny, TInt), Call("Fast", TAny, TStr, TInt),
 		Call("FnInc", TInt, TInt), Call("Add", TInt, TInt, TInt), Call("Cat", TStr, TStr, TStr), Call("IsNil", TBool, TNil), Call("IsNil", TBool, TObj),
+		Call("Plus", TInt, TInt, TInt), Call("Get", TInt, TInt), // same names as methods of Obj, other arities
 		Call("Second", TAny, TInt, TNil), Call("Second", TAny, TNil, TInt), Call("Second", TAny, TStr, TObj), Method(TObj, "Pick", TAny, false, TInt, TNil),
 		Arr(), Arr(TInt), Arr(TInt, TStr), Arr(TObj),
 		MapLit([]string{"a"}, TInt), MapLit([]string{"a", "b"}, TInt, TStr),
